@@ -23,6 +23,14 @@ Definition new_header (bound : N) : header :=
 Definition bnew : bstate :=
   {| bs_module := empty_module; bs_header := None; bs_next := 1; bs_fn := None; bs_blk := None |}.
 
+(** Builder::new_from_module: continue an existing module; the next id is the
+    header bound ([None] = `.expect("Expecting ModuleHeader with valid bound")` panics) *)
+Definition bfrom (m : module inst) (h : option header) : option bstate :=
+  match h with
+  | Some hh => Some {| bs_module := m; bs_header := Some hh; bs_next := h_bound hh; bs_fn := None; bs_blk := None |}
+  | None => None
+  end.
+
 Inductive bout := BUnit | BVal (v : N) | BInst (i : inst) | BFail (e : berr) | BPanic.
 
 (** id(): `self.next_id += 1` overflows (debug panic) at u32::MAX *)
